@@ -33,43 +33,11 @@ RULE += (' ' +
          'context-aware entry points on class and instance; a peer stalled '
          'in send() while another thread encodes; the encoder calls repeated '
          'in child interpreters started with no flag, -O and -OO (component '
-         'interpreter_mode). ')
-RULE += (' ' +
-         'Added in later rounds: decoding through io.BufferedReader over a '
-         'raw stream delivering 1-3 bytes per read; calls through the '
-         'context-aware entry points on class and instance; a peer stalled '
-         'in send() while another thread encodes; the encoder calls repeated '
-         'in child interpreters started with no flag, -O and -OO (component '
-         'interpreter_mode). ')
-RULE += (' ' +
-         'Added in later rounds: decoding through io.BufferedReader over a '
-         'raw stream delivering 1-3 bytes per read; calls through the '
-         'context-aware entry points on class and instance; a peer stalled '
-         'in send() while another thread encodes; the encoder calls repeated '
-         'in child interpreters started with no flag, -O and -OO (component '
-         'interpreter_mode). ')
-RULE += (' ' +
-         'Added in later rounds: decoding through io.BufferedReader over a '
-         'raw stream delivering 1-3 bytes per read; calls through the '
-         'context-aware entry points on class and instance; a peer stalled '
-         'in send() while another thread encodes; the encoder calls repeated '
-         'in child interpreters started with no flag, -O and -OO (component '
-         'interpreter_mode). ')
-RULE += (' ' +
-         'Added in later rounds: decoding through io.BufferedReader over a '
-         'raw stream delivering 1-3 bytes per read; calls through the '
-         'context-aware entry points on class and instance; a peer stalled '
-         'in send() while another thread encodes; the encoder calls repeated '
-         'in child interpreters started with no flag, -O and -OO (component '
-         'interpreter_mode). ')
-RULE += (' ' +
-         'Added in later rounds: decoding through io.BufferedReader over a '
-         'raw stream delivering 1-3 bytes per read; calls through the '
-         'context-aware entry points on class and instance; a peer stalled '
-         'in send() while another thread encodes; the encoder calls repeated '
-         'in child interpreters started with no flag, -O and -OO (component '
          'interpreter_mode). Round 15: decode / encode calls run with '
-         'warnings escalated to errors. ')
+         'warnings escalated to errors. Round 16: component recycled - '
+         'decoding canonical(n) on a stream object whose earlier decode '
+         'ended in a timeout, end of stream or an over-long encoding after '
+         '0..max continuation bytes. ')
 LEVEL_TEXT = ('Differential testing of VarInt/VarLong read/send/size against an '
               'independent reference codec: complete enumeration of all byte '
               'strings up to 2/3 bytes, all continuation shapes up to 13 '
